@@ -783,18 +783,31 @@ class CompositeEnvelope:
                 composite_envelopes.append(e.composite_envelope)
 
         ce_container = None
+        merged_containers: List[CompositeEnvelopeContainer] = []
         for ce in composite_envelopes:
             assert isinstance(
                 ce, CompositeEnvelope
             ), "ce should be CompositeEnvelope type"
-            state_objs.extend(ce.state_objs)
-            if ce_container is None:
-                ce_container = CompositeEnvelope._containers[ce.uid]
-            else:
-                ce_container.append_states(CompositeEnvelope._containers[ce.uid])
+            if ce.uid == self.uid:
+                # The same handle was given twice
+                continue
+            other_container = CompositeEnvelope._containers[ce.uid]
             ce.uid = self.uid
+            if any(other_container is c for c in merged_containers):
+                # Handles can share a container (or be given twice)
+                continue
+            merged_containers.append(other_container)
+            state_objs.extend(other_container.state_objs)
+            if ce_container is None:
+                ce_container = other_container
+            else:
+                ce_container.append_states(other_container)
         if ce_container is None:
             ce_container = CompositeEnvelopeContainer(self.uid)
+        # All other handles of the merged containers see the merged container
+        for uid, container in list(CompositeEnvelope._containers.items()):
+            if any(container is c for c in merged_containers):
+                CompositeEnvelope._containers[uid] = ce_container
         for e in envelopes:
             if e not in ce_container.envelopes:
                 assert e is not None, "Envelope e should not be None"
@@ -809,7 +822,7 @@ class CompositeEnvelope:
             CompositeEnvelope._instances[self.uid] = []
         CompositeEnvelope._instances[self.uid].append(self)
         self.update_composite_envelope_pointers()
-        if len(composite_envelopes) > 1:
+        if len(merged_containers) > 1:
             # Product states of the merged containers changed their position
             ce_container.update_all_indices()
 
